@@ -62,7 +62,12 @@ def run_case(case):
     depth = ks * 8
     default = case["default"]
     ref = RefSMT(ks, default)
-    tree = impl("construct", SparseMerkleTree, key_size=ks, default=default)
+    if ks == 32 and default == b"":
+        tree = impl("construct", SparseMerkleTree)  # the documented defaults
+    elif default == b"":
+        tree = impl("construct", SparseMerkleTree, ks)
+    else:
+        tree = impl("construct", SparseMerkleTree, key_size=ks, default=default)
     model = {}
     written = []
 
